@@ -69,7 +69,7 @@ def parseExits (s : String) : Option (List (Nat × Int × String)) :=
     | [a, b, c] => do pure (← a.toNat?, ← b.toInt?, c)
     | _ => none
 
-def parseObs (kv : List (String × String)) (ammo : Nat := 0) (rps : List RSeg := []) : Option Obs := do
+def parseObs (kv : List (String × String)) (ammo : Nat := 0) (rps : List RSeg := []) (discardOn : Bool := false) : Option Obs := do
   let binds ← (← parsePairs (getS kv "binds")).mapM fun (a, b) => do pure ((← a.toNat?), b)
   let shots ← (← parsePairs (getS kv "shots")).mapM fun (a, b) => do pure ((← a.toNat?), b.toNat)
   pure { k := ← getN? kv "k", err := getS kv "err", mstart := ← getN? kv "mstart", fails := ← getN? kv "fails",
@@ -87,6 +87,7 @@ def parseObs (kv : List (String × String)) (ammo : Nat := 0) (rps : List RSeg :
          rpsgiven := ← parseInts (getS kv "rpsgiven"),
          rpsl0 := getI? kv "rpsl0", sul0 := getI? kv "sul0",
          rpsleaf := (getI? kv "rpsleaf").getD (-1), rpsout := (getI? kv "rpsout").getD 0,
+         rpsatfin := ← parseInts (getS kv "rpsatfin"), discards := ← parseInts (getS kv "discards"), discardOn,
          rpsunk := rps.any (fun sg => match sg with | .unlim _ => true | _ => false) }
 
 def reasonOf : String → Option ExitReason
@@ -223,7 +224,7 @@ def engineErr (ins obss : List String) : Option String :=
 def handlePool (input impl : String) (engErr : Option String := none) : String × String :=
   let rps := (parseRps (getS (parseKV input) "rps")).getD []
   match parseParts (getS (parseKV input) "startup"),
-      (parseRps (getS (parseKV input) "rps")).bind (fun rps => parseObs (parseKV impl) ((getN? (parseKV input) "ammo").getD 0) rps) with
+      (parseRps (getS (parseKV input) "rps")).bind (fun rps => parseObs (parseKV impl) ((getN? (parseKV input) "ammo").getD 0) rps (getS (parseKV input) "discard" == "1")) with
   | some parts, some o =>
     let perinst := getS (parseKV input) "perinst" == "1"
     let s := replay perinst o
